@@ -111,16 +111,16 @@ type c05mem struct {
 	stream *c05mStream // current stream history (nil: none held)
 	snapS  *c05mSnap   // current snapshot (nil: none)
 	// live objects
-	aofW    AofChannelWriter
-	aofSR   *c05mStepReader
-	rdbW    RdbChannelWriter
-	rdbSR   *c05mStepReader
+	aofW       AofChannelWriter
+	aofSR      *c05mStepReader
+	rdbW       RdbChannelWriter
+	rdbSR      *c05mStepReader
 	aofBlocked []byte // chunk of a stream append that is waiting for capacity
 	rdbBlocked []byte // chunk of a snapshot append that is waiting for capacity
-	readers map[int]*c05mReader
-	nextRid int
-	opIdx   int
-	trace   []string
+	readers    map[int]*c05mReader
+	nextRid    int
+	opIdx      int
+	trace      []string
 }
 
 func (d *c05mem) emit(op string, out ...string) {
@@ -534,7 +534,7 @@ func (d *c05mem) opAofClose() {
 // bytes of the current snapshot / stream that are in the channel (read from the
 // writer's current segment: its right edge is the total appended so far)
 func c05mRdbWritten(w RdbChannelWriter) int64 { return w.(*MemoryRdbWriter).currentSegment().right() }
-func c05mAofRight(w AofChannelWriter) int64  { return w.(*MemoryAofWriter).currentSegment().right() }
+func c05mAofRight(w AofChannelWriter) int64   { return w.(*MemoryAofWriter).currentSegment().right() }
 
 func (d *c05mem) opOpen(off int64) {
 	rid := d.nextRid
